@@ -23,7 +23,7 @@ def gen_lalr(rng, prio_p=0.25):
             lines.append('%s%s: %s' % (nt, pr, ' | '.join(alts)))
     else:
         t = lambda: rng.choice(tn)
-        shape = rng.choice(['list', 'expr', 'nullsuffix', 'sharedcore', 'opt', 'nested', 'nullchain', 'nullchain'])
+        shape = rng.choice(['list', 'expr', 'nullsuffix', 'sharedcore', 'opt', 'nested', 'nullchain', 'nullchain', 'indirect'])
         if shape == 'list':
             lines = ['start: item | start %s item' % t(), 'item: %s | %s start %s |' % (t(), t(), t()) if rng.random() < 0.5 else 'item: %s | %s' % (t(), t())]
         elif shape == 'expr':
@@ -47,6 +47,15 @@ def gen_lalr(rng, prio_p=0.25):
                 chain.reverse()
             head = rng.choice(['start: a c0 %s' % x, 'start: a c0 %s | c0 a' % x, 'start: a c0 c1 %s' % x, 'start: %s a c0' % x])
             lines = [head, 'a: %s' % y] + chain
+        elif shape == 'indirect':
+            # indirect left recursion (a leftmost cycle through two or three nonterminals): the closure of a kernel has to follow the cycle all the way round
+            ts = [t() for _ in range(6)]
+            if rng.random() < 0.5:
+                lines = ['start: %s y | %s x' % (ts[0], ts[1]), 'x: y %s | %s' % (ts[2], ts[3]), 'y: x %s | %s' % (ts[4], ts[5])]
+            else:
+                lines = ['start: %s x %s | y' % (ts[0], ts[1]), 'x: y %s | %s' % (ts[2], ts[3]), 'y: z %s' % ts[4], 'z: x %s | %s' % (ts[5], ts[0])]
+            if rng.random() < 0.3:
+                rng.shuffle(lines)
         elif shape == 'opt':
             lines = ['start: a b c', 'a: %s |' % t(), 'b: %s a |' % t(), 'c: %s | a %s' % (t(), t())]
         else:
@@ -96,6 +105,7 @@ def export(g):
         rows.append({'shifts': sorted(shifts), 'las': sorted(las)})
     out['rows'] = rows
     out['items'] = [sorted([rix(rp.rule), rp.index] for rp in st.closure) for st in states]
+    out['kernels'] = [sorted([rix(rp.rule), rp.index] for rp in st.kernel) for st in states]
     out['rules'] = [{'lhs': nid[r.origin.name], 'rhs': [[1, tid[s.name]] if s.is_term else [0, nid[s.name]] for s in r.expansion]} for r in allrules]
     out['rule_names'] = [(r.origin.name, [s.name for s in r.expansion]) for r in allrules]
     out['plain_rules'] = [(r.origin.name, tuple((s.is_term, s.name) for s in r.expansion)) for r in rules]
